@@ -222,6 +222,43 @@ theorem closeFn_arrayLeaf {r rest : List Tok} {t : PExp} (h : arrayLeaf r = .ok 
   all_goals first | (cases h; done) | skip
   all_goals grind
 
+theorem closeFn_graphEdges (f : Nat) (toks : List Tok) (acc es : List GEdge) (rest : List Tok)
+    (h : graphEdges f toks acc = some (es, rest)) : closeFn toks = closeFn rest := by
+  induction f generalizing toks acc es rest with
+  | zero => simp [graphEdges] at h
+  | succ f ih =>
+    simp only [graphEdges] at h
+    repeat' split at h
+    all_goals first | (cases h; done) | skip
+    all_goals grind
+
+theorem closeFn_graphNode {toks rest : List Tok} {n : GNode} (h : graphNode toks = some (n, rest)) : closeFn toks = closeFn rest := by
+  simp only [graphNode] at h
+  have := closeFn_graphEdges
+  repeat' split at h
+  all_goals first | (cases h; done) | skip
+  all_goals grind
+
+theorem closeFn_graphTail (f : Nat) (toks : List Tok) (acc ns : List GNode) (rest : List Tok)
+    (h : graphTail f toks acc = some (ns, rest)) : closeFn toks = closeFn rest := by
+  induction f generalizing toks acc ns rest with
+  | zero => simp [graphTail] at h
+  | succ f ih =>
+    simp only [graphTail] at h
+    have := @closeFn_graphNode
+    repeat' split at h
+    all_goals first | (cases h; done) | skip
+    all_goals grind
+
+theorem closeFn_graphLeaf {r rest : List Tok} {t : PExp} (h : graphLeaf r = some (t, rest)) : closeFn r = closeFn rest := by
+  simp only [graphLeaf, graphNodes] at h
+  have := closeFn_graphTail
+  have := @closeFn_graphNode
+  rw [← closeFn_skipNl r]
+  repeat' split at h
+  all_goals first | (cases h; done) | skip
+  all_goals grind
+
 /-- a successful step does not change `closeFn` -/
 def BalAt (f : Nat) : Prop :=
     (∀ toks t rest, parseExp f toks = .ok (t, rest) → closeFn toks = closeFn rest)
@@ -250,6 +287,7 @@ theorem bal_parseExp (f : Nat) (ih : BalAt f) : ∀ toks t rest, parseExp (f+1) 
   have hTN := closeFn_tupleNames
   have hWL := @rest_wordLeaf
   have hAr := @closeFn_arrayLeaf
+  have hGr := @closeFn_graphLeaf
   intro toks t rest h
   simp only [parseExp] at h
   repeat' split at h
@@ -264,6 +302,7 @@ theorem bal_collect (f : Nat) (ih : BalAt f) : ∀ toks items rest, collect (f+1
   have hTN := closeFn_tupleNames
   have hWL := @rest_wordLeaf
   have hAr := @closeFn_arrayLeaf
+  have hGr := @closeFn_graphLeaf
   intro toks items rest h
   simp only [collect] at h
   repeat' split at h
@@ -278,6 +317,7 @@ theorem bal_collectLoop (f : Nat) (ih : BalAt f) : ∀ toks acc items rest, coll
   have hTN := closeFn_tupleNames
   have hWL := @rest_wordLeaf
   have hAr := @closeFn_arrayLeaf
+  have hGr := @closeFn_graphLeaf
   intro toks acc items rest h
   simp only [collectLoop] at h
   repeat' split at h
@@ -292,6 +332,7 @@ theorem bal_leaf (f : Nat) (ih : BalAt f) : ∀ toks t rest, leaf (f+1) toks = .
   have hTN := closeFn_tupleNames
   have hWL := @rest_wordLeaf
   have hAr := @closeFn_arrayLeaf
+  have hGr := @closeFn_graphLeaf
   intro toks t rest h
   simp only [leaf] at h
   repeat' split at h
@@ -306,6 +347,7 @@ theorem bal_wordRest (f : Nat) (ih : BalAt f) : ∀ w toks t rest, wordRest (f+1
   have hTN := closeFn_tupleNames
   have hWL := @rest_wordLeaf
   have hAr := @closeFn_arrayLeaf
+  have hGr := @closeFn_graphLeaf
   intro w toks t rest h
   simp only [wordRest] at h
   repeat' split at h
@@ -320,6 +362,7 @@ theorem bal_scopedFn (f : Nat) (ih : BalAt f) : ∀ n toks t rest, scopedFn (f+1
   have hTN := closeFn_tupleNames
   have hWL := @rest_wordLeaf
   have hAr := @closeFn_arrayLeaf
+  have hGr := @closeFn_graphLeaf
   intro n toks t rest h
   simp only [scopedFn] at h
   repeat' split at h
@@ -334,6 +377,7 @@ theorem bal_iterList (f : Nat) (ih : BalAt f) : ∀ toks vs its p rest, iterList
   have hTN := closeFn_tupleNames
   have hWL := @rest_wordLeaf
   have hAr := @closeFn_arrayLeaf
+  have hGr := @closeFn_graphLeaf
   intro toks vs its p rest h
   simp only [iterList] at h
   repeat' split at h
@@ -348,6 +392,7 @@ theorem bal_iterDecl (f : Nat) (ih : BalAt f) : ∀ toks p rest, iterDecl (f+1) 
   have hTN := closeFn_tupleNames
   have hWL := @rest_wordLeaf
   have hAr := @closeFn_arrayLeaf
+  have hGr := @closeFn_graphLeaf
   intro toks p rest h
   simp only [iterDecl] at h
   repeat' split at h
@@ -362,6 +407,7 @@ theorem bal_iterator (f : Nat) (ih : BalAt f) : ∀ toks t rest, iterator (f+1) 
   have hTN := closeFn_tupleNames
   have hWL := @rest_wordLeaf
   have hAr := @closeFn_arrayLeaf
+  have hGr := @closeFn_graphLeaf
   intro toks t rest h
   simp only [iterator] at h
   repeat' split at h
@@ -376,6 +422,7 @@ theorem bal_expList (f : Nat) (ih : BalAt f) : ∀ toks acc as rest, expList (f+
   have hTN := closeFn_tupleNames
   have hWL := @rest_wordLeaf
   have hAr := @closeFn_arrayLeaf
+  have hGr := @closeFn_graphLeaf
   intro toks acc as rest h
   simp only [expList] at h
   repeat' split at h
@@ -390,6 +437,7 @@ theorem bal_accessLoop (f : Nat) (ih : BalAt f) : ∀ toks acc as rest, accessLo
   have hTN := closeFn_tupleNames
   have hWL := @rest_wordLeaf
   have hAr := @closeFn_arrayLeaf
+  have hGr := @closeFn_graphLeaf
   intro toks acc as rest h
   simp only [accessLoop] at h
   repeat' split at h
@@ -404,6 +452,7 @@ theorem bal_indexLoop (f : Nat) (ih : BalAt f) : ∀ toks acc as rest, indexLoop
   have hTN := closeFn_tupleNames
   have hWL := @rest_wordLeaf
   have hAr := @closeFn_arrayLeaf
+  have hGr := @closeFn_graphLeaf
   intro toks acc as rest h
   simp only [indexLoop] at h
   repeat' split at h
@@ -418,6 +467,7 @@ theorem bal_args (f : Nat) (ih : BalAt f) : ∀ toks as rest, args (f+1) toks = 
   have hTN := closeFn_tupleNames
   have hWL := @rest_wordLeaf
   have hAr := @closeFn_arrayLeaf
+  have hGr := @closeFn_graphLeaf
   intro toks as rest h
   simp only [args] at h
   repeat' split at h
@@ -432,6 +482,7 @@ theorem bal_argsTail (f : Nat) (ih : BalAt f) : ∀ toks acc as rest, argsTail (
   have hTN := closeFn_tupleNames
   have hWL := @rest_wordLeaf
   have hAr := @closeFn_arrayLeaf
+  have hGr := @closeFn_graphLeaf
   intro toks acc as rest h
   simp only [argsTail] at h
   repeat' split at h
@@ -446,6 +497,7 @@ theorem bal_atoms (f : Nat) (ih : BalAt f) : ∀ toks acc as rest, atoms (f+1) t
   have hTN := closeFn_tupleNames
   have hWL := @rest_wordLeaf
   have hAr := @closeFn_arrayLeaf
+  have hGr := @closeFn_graphLeaf
   intro toks acc as rest h
   simp only [atoms] at h
   repeat' split at h
@@ -460,6 +512,7 @@ theorem bal_optVariable (f : Nat) (ih : BalAt f) : ∀ toks t rest, optVariable 
   have hTN := closeFn_tupleNames
   have hWL := @rest_wordLeaf
   have hAr := @closeFn_arrayLeaf
+  have hGr := @closeFn_graphLeaf
   intro toks t rest h
   simp only [optVariable] at h
   repeat' split at h
@@ -474,6 +527,7 @@ theorem bal_imulOrSingle (f : Nat) (ih : BalAt f) : ∀ toks t rest, imulOrSingl
   have hTN := closeFn_tupleNames
   have hWL := @rest_wordLeaf
   have hAr := @closeFn_arrayLeaf
+  have hGr := @closeFn_graphLeaf
   intro toks t rest h
   simp only [imulOrSingle] at h
   repeat' split at h
